@@ -31,6 +31,9 @@ def make_server(asyncio_=False, P=None, **kw):
     kw.setdefault('logger', stubs.NULL_LOGGER)
     kw.setdefault('serializer', P)
     cls = HAServer if asyncio_ else HServer
+    if P == 'msgpack':
+        s = cls(**kw)
+        return s, s.eio, s.packet_class
     s = cls(**kw)
     return s, s.eio, P
 
